@@ -235,7 +235,7 @@ func TestPropTicksSampled(t *testing.T) {
 	})
 }
 
-const rejectRule = "out-of-range inputs: ticks below -270000001 or above 342000000, prices/sqrt prices below the minimum or above the maximum, negative prices; oracle: an error, never a value; plus RoundDownTickToSpacing(t, sp) for t in +-4e8 (edges biased) and sp in {1,10,100,1000} or 1..1e6: result == sp*floor(t/sp) <= t when inside [-270000000, 342000000], else an error; non-trivial = negative tick not divisible by the spacing or an input just outside a bound; distinct by inputs"
+const rejectRule = "out-of-range inputs: ticks below -270000001 or above 342000000, prices/sqrt prices below the minimum or above the maximum (sqrt prices also anywhere in the extended V2 range 1e-15..1e-6, which the tick->price direction knows but no pool may hold), negative prices; oracle: an error, never a value; plus RoundDownTickToSpacing(t, sp) for t in +-4e8 (edges biased) and sp in {1,10,100,1000} or 1..1e6: result == sp*floor(t/sp) <= t when inside [-270000000, 342000000], else an error; non-trivial = negative tick not divisible by the spacing or an input just outside a bound; distinct by inputs"
 
 func TestPropRejectAndSpacing(t *testing.T) {
 	drv.Check(t, drv.Cfg{Name: "reject-and-spacing", Rule: rejectRule, Quick: 20000, Thorough: 600000}, func(rt *rapid.T, c *drv.Case) {
@@ -276,8 +276,29 @@ func TestPropRejectAndSpacing(t *testing.T) {
 			if high {
 				s = new(big.Int).Add(cltypes.MaxSqrtPriceBigDec.BigInt(), big.NewInt(rapid.Int64Range(1, 1<<60).Draw(rt, "d")))
 			} else {
-				// below the minimum sqrt price
-				s = new(big.Int).Sub(cltypes.MinSqrtPriceBigDec.BigInt(), big.NewInt(rapid.Int64Range(1, 1<<62).Draw(rt, "d")))
+				// below the minimum sqrt price: just below it, or anywhere in the extended range down to the sqrt price of the
+				// lowest V2 tick (the conversion knows those ticks, but a sqrt price there is below what a pool may hold)
+				switch rapid.IntRange(0, 2).Draw(rt, "lowShape") {
+				case 0:
+					s = new(big.Int).Sub(cltypes.MinSqrtPriceBigDec.BigInt(), big.NewInt(rapid.Int64Range(1, 1<<62).Draw(rt, "d")))
+				case 1:
+					tk := genTick(rt, "extTick", minV2, minCur-2)
+					s0, s1 := refSqrt(tk), refSqrt(tk+1)
+					w := new(big.Int).Sub(s1, s0)
+					k := big.NewInt(rapid.Int64Range(0, 1<<40).Draw(rt, "frac"))
+					s = new(big.Int).Mul(w, k)
+					s.Rsh(s, 40).Add(s, s0)
+					c.Class("sqrt-price-in-extended-range")
+				default:
+					// log-uniform between 1e-15 and 1e-6 (36-decimal integers 1e21 .. 1e30)
+					e := rapid.IntRange(21, 29).Draw(rt, "exp")
+					m := rapid.Int64Range(1_000_000, 9_999_999).Draw(rt, "mant")
+					s = new(big.Int).Mul(big.NewInt(m), new(big.Int).Exp(big.NewInt(10), big.NewInt(int64(e-6)), nil))
+					if s.Cmp(cltypes.MinSqrtPriceBigDec.BigInt()) >= 0 {
+						s = new(big.Int).Sub(cltypes.MinSqrtPriceBigDec.BigInt(), big.NewInt(m))
+					}
+					c.Class("sqrt-price-in-extended-range")
+				}
 			}
 			tk, err := clmath.CalculateSqrtPriceToTick(bd(s))
 			if high && err == nil {
